@@ -76,9 +76,9 @@ func checkEAN(t TB, c EANCase) bool {
 	if merr != nil {
 		failf(t, "C06", "ean", c, "%v", merr)
 	}
-	wantW, kind := 67, barcode.TypeEAN8
+	wantW, kind := 67, "EAN 8"
 	if len(want) == 13 {
-		wantW, kind = 95, barcode.TypeEAN13
+		wantW, kind = 95, "EAN 13"
 	}
 	if len(m) != wantW {
 		failf(t, "C06", "ean", c, "symbol is %d modules wide, want %d", len(m), wantW)
@@ -116,9 +116,22 @@ func checkEANRelated(t TB, c EANCase) {
 func init() { register("ean", func(t TB, c EANCase) { checkEANRelated(t, c) }) }
 
 func genEAN(t *rapid.T) string {
+	// one case in five draws all its digits from a palette of one or two digits (all nines, all zeros,
+	// 9090..., extreme weighted sums): uniformly random digits practically never produce these
+	var palette []int
+	if rapid.IntRange(0, 4).Draw(t, "lowentropy") == 0 {
+		palette = []int{rapid.SampledFrom([]int{9, 0, 1, 5, 8, 2, 3, 4, 6, 7}).Draw(t, "p0")}
+		if rapid.Bool().Draw(t, "p2") {
+			palette = append(palette, rapid.IntRange(0, 9).Draw(t, "p1"))
+		}
+	}
 	digits := func(n int) string {
 		b := make([]byte, n)
 		for i := range b {
+			if palette != nil {
+				b[i] = byte('0' + palette[rapid.IntRange(0, len(palette)-1).Draw(t, "pd")])
+				continue
+			}
 			b[i] = byte('0' + rapid.IntRange(0, 9).Draw(t, "d"))
 		}
 		return string(b)
@@ -249,6 +262,33 @@ func TestC06Covering(t *testing.T) {
 				ok := checkEAN(ct, EANCase{Code: BStr(variant)})
 				st.Eval()
 				c06Account(st, variant, ok)
+			}
+		})
+	})
+	// periodic two-digit patterns abab... for all 100 (a, b): the extreme weighted sums (all nines, all zeros,
+	// 9090..., 0909...) of both symbol kinds, as 7/12 digits and as 8/13 digits with each of the ten last digits
+	parallelFor(100, 16, func(idx int) {
+		if ct.Failed() {
+			return
+		}
+		ct.guard(func() {
+			for _, n := range []int{7, 12} {
+				b := make([]byte, n)
+				for i := range b {
+					b[i] = byte('0' + []int{idx / 10, idx % 10}[i%2])
+				}
+				variants := []string{string(b)}
+				for d := 0; d < 10; d++ {
+					variants = append(variants, string(b)+string(byte('0'+d)))
+				}
+				for _, v := range variants {
+					ok := checkEAN(ct, EANCase{Code: BStr(v)})
+					st.Eval()
+					c06Account(st, v, ok)
+					if ok {
+						st.Class("accepted periodic two-digit pattern")
+					}
+				}
 			}
 		})
 	})
